@@ -298,3 +298,71 @@ func ZZ_C15_Deadline() {
 	zzAssert(err2 != nil, "C15.deadline.later-request-succeeded")
 	zzReach("C15.deadline.done")
 }
+
+// (iii) corruption followed by a stall: the peer answers with a prefix of a frame that
+// does not start with the protocol magic and then goes silent, leaving the connection
+// open.  The stream is unusable from the first two bytes on, so every pending request
+// fails without any further input, the error is sticky and reported on closeChan.
+func ZZ_C15_CorruptStall() {
+	m := zzParam("M", 2)
+	a, b := zzConnPair()
+	closeChan := make(chan struct{}, 5)
+	cl := zzClient(a, closeChan)
+	errs := make([]error, m)
+	done := make(chan int, m)
+	for i := 0; i < m; i++ {
+		go func(k int) {
+			buf := make([]byte, 1)
+			_, errs[k] = cl.operation(TypeRead, buf, int64(k), 1)
+			done <- k
+		}(i)
+	}
+	zzSettle()
+	magic := zzNondetUint16("magic")
+	zzAssume(magic != MagicVersion)
+	k := 2 + zzConcretize(zzChoice("prefix", 28)) // 2..29 bytes of a 30-byte header
+	frame := make([]byte, k)
+	frame[0], frame[1] = byte(magic), byte(magic>>8)
+	for i := 2; i < k; i++ {
+		frame[i] = zzNondetByte("garbage")
+	}
+	b.Write(frame)
+	zzSettleMs(2500)
+	zzAssert(len(done) == m, "C15.corrupt.request-hangs-after-foreign-bytes")
+	if len(done) != m {
+		return
+	}
+	for i := 0; i < m; i++ {
+		zzAssert(errs[i] != nil, "C15.corrupt.pending-request-succeeded")
+	}
+	zzAssert(cl.err != nil, "C15.corrupt.error-not-sticky")
+	zzAssert(len(closeChan) >= 1, "C15.corrupt.failure-not-reported-on-closeChan")
+	buf := make([]byte, 1)
+	_, err := cl.operation(TypeRead, buf, 0, 1)
+	zzAssert(err != nil, "C15.corrupt.later-request-succeeded")
+	zzReach("C15.corrupt.done")
+}
+
+// the replica side of the same: the real Server.readWrite gives up on a connection
+// whose first bytes are not the protocol magic (a foreign client such as a metrics
+// scraper) without waiting for more input, and serves nothing from it.
+func ZZ_C15_ServerForeignClient() {
+	a, b := zzConnPair()
+	data := &zzData{}
+	srv := &Server{wire: zzWire(b), responses: make(chan *Message, 1024), done: make(chan struct{}, 5), data: data}
+	ret := make(chan error, 1)
+	go srv.readWrite(ret)
+	magic := zzNondetUint16("magic")
+	zzAssume(magic != MagicVersion)
+	k := 2 + zzConcretize(zzChoice("prefix", 28))
+	frame := make([]byte, k)
+	frame[0], frame[1] = byte(magic), byte(magic>>8)
+	for i := 2; i < k; i++ {
+		frame[i] = zzNondetByte("garbage")
+	}
+	a.Write(frame)
+	zzSettleMs(1000)
+	zzAssert(len(ret) == 1, "C15.server.foreign-client-not-rejected-at-once")
+	zzAssert(data.reads+data.writes+data.syncs+data.unmaps+data.pings == 0, "C15.server.foreign-bytes-reached-the-replica")
+	zzReach("C15.server.foreign.done")
+}
